@@ -92,7 +92,8 @@ class Item:
             rej = acc["rej"].cond
             mn_atom = acc["mn"].as_atom()
             rts = sorted((Poly.atom(a) for a in all_atoms(rej)
-                          if a[0] == "var" and Poly.atom(a) not in (W, H)),
+                          if a[0] in ("var", "cell")
+                          and Poly.atom(a) not in (W, H)),
                          key=lambda p: repr(p.key()))
             mn = ite(("lt", W, H), W, H)
             alts = []
